@@ -687,7 +687,21 @@ func (r *Run) selectInstr(fr *Frame, st *State, x *ssa.Select) *Val {
 			field := chanFieldName(s.Chan)
 			v := r.val(fr, st, s.Send)
 			site := fmt.Sprintf("%s#%d", field, r.sendOrdinal(x, field, k))
-			r.siteChecks(fr, sst, x, r.contractFor(fr.fn), field, site, map[string]*Val{"$v": v}, true)
+			r.siteChecks(fr, sst, x, r.contractFor(fr.fn), field, site, map[string]*Val{"$v": v, "$ch": r.val(fr, st, s.Chan)}, true)
+			// the send happens exactly when this case is chosen: the ghost counters follow it
+			chosen := app("=", idx, fmt.Sprint(k))
+			if _, ok := r.eng.C.DeclBy["ghost:sent."+field]; ok {
+				cur, _ := r.ghostVar(st, "sent."+field)
+				r.havocGhost(st, "sent."+field)
+				nw, _ := r.ghostVar(st, "sent."+field)
+				st.assume(app("=", nw, app("ite", chosen, app("+", cur, "1"), cur)))
+			}
+			if _, ok := r.eng.C.DeclBy["ghost:lastsent."+field]; ok && v.T != "" {
+				cur, _ := r.ghostVar(st, "lastsent."+field)
+				r.havocGhost(st, "lastsent."+field)
+				nw, _ := r.ghostVar(st, "lastsent."+field)
+				st.assume(app("=", nw, app("ite", chosen, r.termOf(v), cur)))
+			}
 		}
 	}
 	return tupleOf(x.Type(), elems...)
